@@ -18,6 +18,22 @@ def replay_hist(kind, tag, recs):
     return [r for r in rows if r.get("summary")][0], [r for r in rows if not r.get("summary")]
 
 
+LOOKUP_VARIANTS = ["plain", "trailblank", "trailtab", "indent", "cmtblock", "cmtinline", "quoted", "console"]
+
+
+def replay_lookup(tag, recs):
+    inp = os.path.join(vlib.WORK, "beh", tag + "-lookup.ndjson")
+    outp = os.path.join(vlib.WORK, "beh", tag + "-lookup.out.ndjson")
+    scratch = os.path.join(vlib.WORK, "ctxscratch", "lookup")
+    shutil.rmtree(scratch, ignore_errors=True)
+    os.makedirs(scratch, exist_ok=True)
+    vlib.write_ndjson(inp, recs)
+    rc, out = vlib.gvh(["lookup", inp, outp, scratch], bin="gvh_ctx",
+                       env={"XDG_DATA_HOME": os.path.join(scratch, "xdg"), "HOME": scratch}, timeout=3000)
+    rows = vlib.read_ndjson(outp)
+    return [x for x in rows if x.get("summary")][0], [x for x in rows if not x.get("summary")]
+
+
 def record_threads(seed, segments, tag):
     out = os.path.join(vlib.WORK, "beh", tag + ".ndjson")
     scratch = os.path.join(vlib.WORK, "ctxscratch", "threads")
@@ -64,22 +80,36 @@ def run(tier, seed):
     vlib.build_harness("gvh_ctx")
     q = tier == "quick"
     nontrivial = 0
-    for kind, cfg in (("minimal", "MC_C18_min"), ("plain", "MC_C18_plain")):
-        r = vlib.tlc_must_pass(vlib.tlc("MC_C18", cfg if q else cfg + "_t", workers=8, timeout=3000))
+    # MC_C18_names: the name classes the base instances lack (user operators named like the built-ins the pipeline
+    # operator executes itself, as pipeline steps and as macro bodies; resources under names without a colon)
+    for kind, cfg in (("minimal", "MC_C18_min"), ("plain", "MC_C18_plain"), ("minimal", "MC_C18_names")):
+        r = vlib.tlc_must_pass(vlib.tlc("MC_C18", cfg if q else cfg + "_t", workers=4, timeout=3000))
         need = ["RegisterOp", "RegisterResource", "OpOk", "OpErr"] + (["OpGrid", "ClearGrids"] if kind == "plain" else [])
         vlib.require_coverage(r, need)
         res.add_tlc(r)
         recs = r["records"].get("HIST", [])
+        if cfg == "MC_C18_names":
+            # vacuity: the colliding names really occur as pipeline steps after their registration
+            def shadowed(x, name, step):
+                reg = [i for i, e in enumerate(x["hist"]) if e["a"] == "regop" and e["n"] == name]
+                return any(e["a"] == "op" and e["ok"] and " | " in e["d"] and step in e["d"] and any(j < i and x["hist"][j]["c"] == e["c"] for j in reg)
+                           for i, e in enumerate(x["hist"]))
+            for name, step in (("push", "push v_1"), ("stack", "stack push=1")):
+                if not any(shadowed(x, name, step) for x in recs):
+                    raise vlib.ToolError("vacuous: no history uses a user operator named %s as a pipeline step" % name)
+            if not any(e["a"] == "regres" and ":" not in e["n"] for x in recs for e in x["hist"]):
+                raise vlib.ToolError("vacuous: no resource registered under a name without a colon")
         # a history is non-trivial if something was instantiated and something changed after that
         for x in recs:
             acts = [e["a"] for e in x["hist"]]
             firstop = next((i for i, a in enumerate(acts) if a in ("op", "opgrid") and x["hist"][i].get("h", 0)), None)
             if firstop is not None and any(a in ("regop", "regres", "clear", "opgrid") for a in acts[firstop + 1:]):
                 nontrivial += 1
-        summary, fails = replay_hist(kind, PROP, recs)
+        tagx = PROP + ("-names" if cfg == "MC_C18_names" else "")
+        summary, fails = replay_hist(kind, tagx, recs)
         # Minimal-generated histories are replayed into Plain as well (and vice versa where possible)
         if kind == "minimal":
-            s2, f2 = replay_hist("plain", PROP + "-min", recs)
+            s2, f2 = replay_hist("plain", tagx + "-min", recs)
             summary["histories"] += s2["histories"]
             summary["evaluations"] += s2["evaluations"]
             fails += f2
@@ -95,24 +125,19 @@ def run(tier, seed):
     vlib.require_coverage(r, ["Resolve"])
     res.add_tlc(r)
     recs = r["records"].get("LOOKUP", [])
-    inp = os.path.join(vlib.WORK, "beh", "C18-lookup.ndjson")
-    outp = os.path.join(vlib.WORK, "beh", "C18-lookup.out.ndjson")
-    scratch = os.path.join(vlib.WORK, "ctxscratch", "lookup")
-    shutil.rmtree(scratch, ignore_errors=True)
-    os.makedirs(scratch, exist_ok=True)
-    vlib.write_ndjson(inp, recs)
-    rc, out = vlib.gvh(["lookup", inp, outp, scratch], bin="gvh_ctx",
-                       env={"XDG_DATA_HOME": os.path.join(scratch, "xdg"), "HOME": scratch}, timeout=3000)
-    rows = vlib.read_ndjson(outp)
-    sm = [x for x in rows if x.get("summary")][0]
-    lf = [x for x in rows if not x.get("summary")]
+    # vacuity: every way of writing an item occurs, in either search path, as the source that must be used
+    for v in LOOKUP_VARIANTS:
+        for p in (0, 1):
+            if not any(x["variants"][p] == v and x["expected"] % 1000 == 100 * (p + 1) + 1 for x in recs):
+                raise vlib.ToolError("vacuous: no lookup configuration takes the item from a '%s' register in path %d" % (v, p + 1))
+    sm, lf = replay_lookup(PROP, recs)
     res.behaviours_replayed += sm["histories"] - len(lf)
     res.evaluations += sm["evaluations"]
     nontrivial += sum(1 for x in recs if x["expected"] != 0 and (x["rt"] + sum(1 for f in x["files"] if f) + sum(1 for g in x["registers"] if g)) > 1)
     res.samples.append(recs[len(recs) // 3])
     for f in lf:
         res.add_violation({"suite": "plain-lookup", "what": f["what"], "detail": {k: f[k] for k in f if k != "config"}, "config": f["config"],
-                           "signature": "lookup|%s|%s" % (f["what"], json.dumps(f["config"])[:300])})
+                           "signature": "lookup|%s|%s|%s" % (f["what"], "/".join(f["config"].get("variants", [])), json.dumps(f["config"])[:300])})
     # ---- concurrent histories: traces recorded from real threads, validated by Trace_C18.tla
     segments = 6 if q else 60
     tr = record_threads(seed, segments, "C18-trace")
@@ -135,17 +160,58 @@ def run(tier, seed):
         raise vlib.ToolError("trace validation is vacuous: a corrupted trace was accepted")
     res.distinct_nontrivial = nontrivial
     res.exhaustive = True
+    # report one (the smallest) representative of every class of disagreement first: Result.finish() writes at most 10
+    def vclass(v):
+        if v["suite"] == "plain-lookup":
+            return "lookup|" + ("/".join(x for x in v["config"].get("variants", []) if x not in ("none", "plain")) or "plain")
+        if v["suite"] == "context":
+            return "context|%s|%s" % (v["what"], (v.get("detail") or {}).get("def"))
+        return v["suite"]
+    best = {}
+    for v in res.violations:
+        v["class"] = vclass(v)
+        n = len(json.dumps(v.get("hist") or v.get("config") or ""))
+        if v["suite"] == "plain-lookup":   # prefer registers whose last item is properly terminated
+            n += 10000 * sum(1 for g in v["config"]["registers"] if g and not g.rstrip().endswith("```"))
+        if v["class"] not in best or n < best[v["class"]][0]:
+            best[v["class"]] = (n, v)
+    reps = [best[k][1] for k in sorted(best)]
+    res.violations = reps + [v for v in res.violations if not any(v is x for x in reps)]
+    res.extra["violation_classes"] = {k: sum(1 for v in res.violations if v["class"] == k) for k in sorted(best)}
     res.rule = ("TLC explores every reachable state of the registry / grid-cache machine (2 contexts; register_op of a name colliding "
                 "with a built-in and one that does not, two versions; register_resource of a macro whose body is a name resolved at "
                 "instantiation time, a literal, or itself; op of single names, pipelines, unknown names; gridshift instantiation "
-                "through the shared cache; clear_grids) up to the history bound, with one history per reachable state (VIEW hides "
-                "the history). Each history is replayed into real Minimal and Plain contexts; after EVERY step every operator "
+                "through the shared cache; clear_grids) up to the history bound, with one history per TRANSITION (the VIEW hides "
+                "the history). A second instance (MC_C18_names) has the name classes the first lacks: user operators registered under "
+                "the names of the built-ins which the pipeline operator executes itself (push, stack), used as pipeline steps, "
+                "alone and as the body of a macro step, and resources registered under names without a colon (one colliding with a "
+                "built-in, one otherwise unknown), which must never be taken for macros. Each history is replayed into real Minimal and "
+                "Plain contexts; after EVERY step every operator "
                 "instantiated so far is re-observed (output bits on a probe tuple, count, steps(), params().given) and must equal "
                 "its first observation; resolution must give the behaviour the model predicts; handles are unique and refused by "
                 "the other context; cache hits/loads and object identities (from the grid_get hook) must match the model. "
-                "Non-trivial = histories in which something is registered, loaded or cleared after an operator was instantiated.")
-    res.assumptions = ["user operators are registered under names without a colon (colon names are macros)",
-                       "grid object identity is compared only among objects the model says are still alive"]
+                "PlainLookup: every configuration of run-time registration, resource file and register in two search paths, the register "
+                "in every layout (several items in several orders, item at end of file, LF/CRLF, missing terminator, leading prose, names "
+                "that are prefixes of one another) and, one register at a time, in every documented way of writing an item (blanks / a tab "
+                "after the identifier, indented fences, other code blocks between the items, ``` inside a block comment or an inline comment of the item, the item quoted in a "
+                "longer ````text block before the item itself); the real Plain must use the documented source and its complete body. "
+                "Non-trivial = histories in which something is registered, loaded or cleared after an operator was instantiated, and "
+                "lookup configurations with more than one source.")
+    res.assumptions = ["user operators are registered under names without a colon: the statement's order (user operator before macro) and "
+                       "Rumination 000 ('macros are recognized by having a \':\'-sigil anywhere in their name') disagree about "
+                       "register_op(\"my:op\"); the code accepts the registration and never resolves it. Not documented unambiguously: not judged",
+                       "the built-ins push / stack / pop standing alone (outside a pipeline) are not documented: not generated; pop is not "
+                       "generated as a colliding name (its built-in meaning on an empty stack is the subject of a C12 known finding), it "
+                       "shares the dispatch of push and stack",
+                       "grid object identity is compared only among objects the model says are still alive",
+                       "the .resource files, their name (prefix_suffix.resource), the second search path (data_local_dir()/geodesy) and the order "
+                       "file-before-register are documented only by the comments and the unit test of src/context/plain.rs (no Rumination "
+                       "mentions them); the model takes that order: run-time > path 1 file > path 1 register > path 2 file > path 2 register",
+                       "register layouts, not documented: not judged (not generated): an identifier in another case (```Geodesy:name), ~~~ fences, "
+                       "blanks between the fence and the identifier, duplicate items (the first wins), a byte order mark at the start of a "
+                       ".resource file (NotFound) or of a register (harmless), an item quoted in a ````text block with no real item after it, "
+                       "names with more than one colon, a:b_c versus a_b:c (same .resource file), path separators in names",
+                       ]
     return res.finish()
 
 
@@ -153,8 +219,12 @@ def replay(path):
     vlib.build_harness("gvh_ctx")
     v = json.load(open(path))
     if v.get("suite") == "plain-lookup":
-        print("lookup configuration: re-run bin/check C18 (configuration in the replay file)")
-        return run("quick", 1)
+        sm, lf = replay_lookup(PROP + "-replay", [v["config"]])
+        if lf:
+            print("VIOLATION property=%s replay=%s" % (PROP, path))
+            return 1
+        print("replay passes on the current tree")
+        return 0
     s, f = replay_hist(v["kind"], PROP + "-replay", [{"hist": v["hist"]}])
     if f:
         print("VIOLATION property=%s replay=%s" % (PROP, path))
